@@ -203,6 +203,13 @@ def corruption_menu(fl=1):
         ("flow rate 0", "setup:flow rate",
          _set("setup:flow rate", 0.0),
          "Invalid value for [setup] 'flow rate'"),
+        ("median trace length -2", "len trace median",
+         lambda h5: h5[f"events/trace/fl{fl}_median"].resize(N - 2, axis=0),
+         f"wrong event count: 'trace/fl{fl}_median'"),
+        ("contour entries 0 and 2 deleted", "len contour",
+         lambda h5: [h5["events/contour"].__delitem__(k)
+                     for k in ("0", "2")],
+         "wrong event count: 'contour'"),
         ("area_um length +2", "len area_um", _resize("area_um", 2),
          "wrong event count: 'area_um'"),
         ("image_bg length -2", "len image_bg", _resize("image_bg", -2),
